@@ -261,6 +261,18 @@ fn width_part<const B: u32>(seed: u64, thorough: bool, out: &mut Out) -> Value {
         let odds = odd_set(B, seed, if thorough { 64 } else { 6 });
         let shifts: Vec<u32> = (0..B).collect();
         let mut count = 0u64;
+        // inverse of every odd constant of the set (concrete evaluation of the real code over
+        // terms: milliseconds each).  Done first and outside the time box: under load the box
+        // used to cut the 64-bit part before it got here, and a `wrapping_inv` that is exact
+        // up to 48 bits (seeded change W6-C01) went through.
+        let boxed = out.deadline.take();
+        for &o in odds.iter() {
+            run_explore::<B>("inv(const d)", Kind::Portfolio, 5_000, out, &|obs| {
+                inv_obligations::<B>(SymCell::<B>::konst(o), obs);
+                inv_obligations::<B>(SymCell::<B>::konst(o.wrapping_add(1) & mask(w)), obs);
+            });
+        }
+        out.deadline = boxed;
         for (oi, &o) in odds.iter().enumerate() {
             for &s in &shifts {
                 if !thorough && !(s < 3 || s % 8 == (oi as u32 % 8) || s + 2 >= B) {
@@ -276,11 +288,6 @@ fn width_part<const B: u32>(seed: u64, thorough: bool, out: &mut Out) -> Value {
                     div_obligations::<B>(SymCell(n), SymCell::<B>::konst(dv), obs);
                 });
             }
-            // inverse of the odd constant (concrete evaluation of the real code over terms)
-            run_explore::<B>("inv(const d)", Kind::Portfolio, 5_000, out, &|obs| {
-                inv_obligations::<B>(SymCell::<B>::konst(o), obs);
-                inv_obligations::<B>(SymCell::<B>::konst(o.wrapping_add(1) & mask(w)), obs);
-            });
         }
         // d == 0
         run_explore::<B>("div(n, 0)", Kind::Portfolio, 5_000, out, &|obs| {
